@@ -18,7 +18,7 @@ def width_of(ty):
 
 def build(tier, seed):
     impls = arith.implementations()
-    fam = [families.HQ[0], families.HQ[1]]
+    fam = [families.HQ[0], families.PAIR1X2]
     pre = PRELUDE + families.rust_defs(fam)
     pre += "static NAMES: [&str; 36] = [%s];\n" % ", ".join('"%s"' % n for n, _, _ in impls)
     pre += "static VARIANTS: [DecoderImplementation; 36] = [%s];\n" % ", ".join("DecoderImplementation::%s" % n for n, _, _ in impls)
@@ -26,7 +26,7 @@ def build(tier, seed):
     items.append((Harness("c18_fromstr_any48", {"input": "every ASCII string of length <= 48 (symbolic bytes and length)",
                                                   "oracle": "Ok(v) iff the string is one of the 36 pinned names and v is the variant of that name; everything else Err"}, 20.0),
                   "crate::c18_fromstr!(c18_fromstr_any48, 48, 51);"))
-    pair_h = [families.HQ[1]] if tier == "quick" else fam
+    pair_h = fam
     limits = [1] if tier == "quick" else [1, 2]
     for idx, (impl, ty, sched) in enumerate(impls):
         kind = arith.type_info(ty)["kind"]
@@ -36,17 +36,21 @@ def build(tier, seed):
         items.append((Harness("c18_vlist_%s" % impl, {"name": impl, "oracle": "value_variants()[i] is this variant and its possible-value name is the identical string"}, 2.0),
                       "crate::c18_valuelist!(c18_vlist_%s, %d, 51);" % (impl, idx)))
         w = width_of(ty)
-        items.append((Harness("c18_width_%s" % impl, {"name": impl, "input": "one LLR, every f64 with |x| <= 1e30", "oracle": "zero-iteration failure word = hard decisions of the input quantised at the named working precision (%d bit)" % w},
-                              3.0, stubs="TABLE" if kind == "i8" else "SURROGATE", covers=(1 if w == 64 else None)),
-                      "crate::c18_width!(c18_width_%s, %s, %s, %d, 8);" % (impl, stubs, impl, w)))
-        for name, n, rows in pair_h:
-            for lim in limits:
-                hn = "c18_pair_%s_%s_l%d" % (impl, name, lim)
-                items.append((Harness(hn, {"name": impl, "expected": "%s::Decoder<%s>" % (sched, ty), "matrix": name, "iteration_limit": lim,
-                                            "input": "%d LLRs from the domain s*2^-e, s in [-127,127], e in {0,3,30}" % n,
-                                            "oracle": "identical (verdict, word, iterations) to the generic decoder built directly"},
-                                      (10.0 if kind == "i8" else 20.0) * lim, stubs="TABLE" if kind == "i8" else "SURROGATE"),
-                              "crate::c18_pair!(%s, %s, %s, %s, %s, h_%s, %d, %d, %d);" % (hn, stubs, impl, sched, ty, name, n, lim, max(n, len(rows), lim) + 3)))
+        for lim in limits:
+            heavy = ("Aminstar" in ty and sched == "flooding")
+            # flooding A-Min*: the symbolic argmin makes message destinations symbolic; two decodes on a
+            # two-check matrix exceed 8 GB / 600 s.  Quick tier: single-check 1x2 matrix for those rows (pins the
+            # arithmetic and the width; flooding/layered are indistinguishable on one check -> thorough tier).
+            variants = [("chain2x3", 3, False, "[-1.0, 1.0]", "[1, 0]")]
+            if heavy:
+                variants = [("pair1x2", 2, True, "[-1.0]", "[1]")] + (variants if tier == "thorough" else [])
+            for hname, n, xpos, wl, we in variants:
+                hn = "c18_pair_%s_%s_l%d" % (impl, hname, lim)
+                items.append((Harness(hn, {"name": impl, "expected": "%s::Decoder<%s>" % (sched, ty), "matrix": hname, "iteration_limit": lim,
+                                            "input": "width witness: one LLR over every f64 with |x| <= 1e30; pairing: %d LLRs from the domain s*2^-e, s in [-127,127], e in {0,3,30}" % n,
+                                            "oracle": "zero-iteration failure word = hard decisions of the input quantised at the named precision (%d bit); identical (verdict, word, iterations) to the generic decoder built directly" % w},
+                                      30.0 * lim * (2 if heavy else 1), stubs="TABLE" if kind == "i8" else "SURROGATE"),
+                              "crate::c18_pair!(%s, %s, %s, %s, %s, %d, %d, h_%s, %d, %s, %s, %s, %d);" % (hn, stubs, impl, sched, ty, w, lim, hname, n, "true" if xpos else "false", wl, we, 3 + 3)))
     meta = {
         "functions": ["DecoderImplementation::{from_str, fmt (Display), value_variants, to_possible_value, build_decoder}", "flooding::Decoder::{new, decode}", "horizontal_layered::Decoder::{new, decode}", "all 24 DecoderArithmetic impls"],
         "bounds": {"string_length": "<= 48 ASCII bytes", "pair_matrices": families.describe(pair_h), "pair_limits": limits,
